@@ -11,6 +11,7 @@ package parser
 func init() {
 	verifHarnesses["VerifC18_Fields"] = VerifC18_Fields
 	verifHarnesses["VerifC18_FieldsNested"] = VerifC18_FieldsNested
+	verifHarnesses["VerifC18_FieldsWide"] = VerifC18_FieldsWide
 	verifHarnesses["VerifC18_Services"] = VerifC18_Services
 	verifHarnesses["VerifC18_TypedefShapes"] = VerifC18_TypedefShapes
 	verifHarnesses["VerifC18_EnumsScopes"] = VerifC18_EnumsScopes
@@ -245,8 +246,10 @@ func verifJudge(failed bool, v verifVerdict) {
 }
 
 // (1) fields of a struct / exception / union / method arguments / throws clause.
+var verifC18Wide bool
+
 func VerifC18_Fields() {
-	wide := verifBound() > 0
+	wide := verifC18Wide
 	to, tn := verifTypedefTarget(wide), verifTypedefTarget(wide) // what typedef T32 means in the old and new program
 	oldF, newF := verifNewFrugal("p", to), verifNewFrugal("p", tn)
 	extra := verifParam() / 5 // 0: one field slot; 1/2/3: a second, plain field in old / new / both
@@ -281,6 +284,13 @@ func VerifC18_Fields() {
 // VerifC18_FieldsNested is VerifC18_Fields with container types (bound 1); a
 // separate entry so that the tiers can bound it differently.
 func VerifC18_FieldsNested() { VerifC18_Fields() }
+
+// VerifC18_FieldsWide is VerifC18_Fields with scalar field types and a typedef that
+// may stand for a container whose element types differ between old and new.
+func VerifC18_FieldsWide() {
+	verifC18Wide = true
+	VerifC18_Fields()
+}
 
 // (1b) a typedef whose meaning changes between the programs (scalar, list or
 // map, element types differing), used as a field type, a return type, an
